@@ -28,6 +28,24 @@ def build_mod(cls, rng):
     a = gen.rsa_degenerate(rng, 'k', cls)
   elif cls == 'fermat':
     a = weak.fermat_key(rng, 'k', 1024, rng.choice([0, 1, 5, 999]))
+  elif cls == 'fermat_e':
+    # close primes whose hexadecimal form starts with the digit e (several checks factor the key: the factor record is merged)
+    import gmpy2
+    p_ = int(gmpy2.next_prime((0xe << 1020) | rng.getrandbits(1020)))
+    q_ = int(gmpy2.next_prime(p_ + rng.randrange(2, 2 ** 30)))
+    a = checks.Art('k', 'rsa', art.rsa_key(p_ * q_), 'fermat', n=p_ * q_, p=p_, q=q_, e=65537, crit={})
+  elif cls in ('sqminuscube', 'sqminusfifth', 'sqminustwicesq'):
+    # s^2 - d with d a perfect power that is not a square (or, as a control, twice a square): n = 1 mod 8, just below a square
+    # d = (u 2^j)^k is highly divisible by 2 and lies just above 2 s, so that s itself is a candidate of the combined search
+    # (top bits from the integer square root, low bits from the 2-adic square root)
+    L_ = rng.choice([512, 1024])
+    s_ = (1 << L_) + 1
+    k_ = {'sqminuscube': 3, 'sqminusfifth': 5, 'sqminustwicesq': 2}[cls]
+    cands = [(u, j) for u in (1, 3, 5, 7, 9, 11, 13, 15) for j in range(1, L_) if (1 << (L_ + 1)) < (u << j) ** k_ * (2 if k_ == 2 else 1) < (1 << (L_ + 2))]
+    u_, j_ = rng.choice(cands)
+    d_ = (u_ << j_) ** k_ * (2 if k_ == 2 else 1)
+    n_ = s_ * s_ - d_
+    a = checks.Art('k', 'rsa', art.rsa_key(n_), 'deg-' + cls, n=n_, e=65537, crit={})
   elif cls == 'highlow':
     a = weak.highlow_key(rng, 'k', 1024, 8, 1024 // 4 - 4)
   elif cls == 'upperdiff':
